@@ -74,12 +74,24 @@ Definition prun (o : pop) (rows : list (list F)) : list (list F) :=
 (* number of dimensions: monotonicity_prox / unimodality_prox treat a 1-D tensor as one column and raise ValueError for more than two
    dimensions (explicit validation); simplex_prox / soft_sparsity_prox unpack `row, col = shape`, which raises ValueError as well; the
    operators on the flattened tensor accept any number of dimensions (the tensor is then presented to prun as its first axis x the rest).
-   smoothness_prox with more than two dimensions (NumPy's stacked solve) is outside the model. *)
+   smoothness_prox with more than two dimensions (NumPy's stacked solve) is modelled separately: smooth_nd below. *)
 Definition ndim_ok (o : pop) (ndim : nat) : bool :=
   match o with
   | PMonotone _ | PUnimodal | PSimplex _ | PSoftSparsity _ => (1 <=? ndim)%nat && (ndim <=? 2)%nat
   | _ => true
   end.
+
+(* smoothness_prox on a tensor with three or more dimensions, as coded: `tl.solve(diag_matrix, tensor)` with the d0 x d0 matrix
+   (d0 = shape[0]) and a right-hand side of shape (..., p, q) is NumPy's stacked solve: the matrix is broadcast against the stack of
+   p x q matrices, so the call raises ValueError unless p = shape[-2] equals d0, and otherwise solves the tridiagonal system along
+   axis -2 of every p x q slice (for three dimensions: it smooths along axis 1, not axis 0 - the code as it is; the candidate
+   build/fix_candidates/C12_smoothness_ndim.* is not applied).  The tensor is presented as the rows of its slices, one slice after the other. *)
+Fixpoint rchunk (fuel c : nat) (l : list (list F)) : list (list (list F)) :=
+  match fuel with O => [] | S fu => match l with [] => [] | _ :: _ => firstn c l :: rchunk fu c (skipn c l) end end.
+Definition smooth_slices (t : F) (slices : list (list (list F))) : list (list (list F)) :=
+  map (colwise Op (smoothness_solve Op t)) slices.
+Definition smooth_nd (t : F) (d0 p : nat) (rows : list (list F)) : res (list (list F)) :=
+  if Nat.eqb p d0 then Ok (concat (smooth_slices t (rchunk (length rows) p rows))) else Err.
 
 (* `if n_const is None: return tensor`; `constraint, parameter = validate_constraints(...)` (may raise); `if constraint is None:
    return tensor`; else the branch of the selected name *)
